@@ -2,6 +2,7 @@ import ERP.Properties.C04
 import ERP.Lemmas.Fresh
 import ERP.Lemmas.GenArith
 import ERP.Lemmas.GenTies
+import ERP.Lemmas.RetractExact
 /-! # C05 — Retractions are never doubled and are recovered before printing resumes
 
 Same setting and protocol as C04 (`ERP.C04.ProtoRun`): matched retract/recover cycles of one
